@@ -73,6 +73,7 @@ type Fidelity struct {
 	BaseURL                bool
 	Twice                  bool // send the same configuration twice: the parsed request must be identical
 	DisablePathNormalizing bool `json:",omitempty"`
+	Idx                    string `json:",omitempty"` // a second path parameter :idx, whose name starts with the name of the first (:id)
 	URLQuery               []KV `json:",omitempty"` // query components written into the URL itself (values may contain the characters a query may carry unescaped: ? / : @)
 }
 
@@ -265,6 +266,10 @@ func checkFidelity(c Fidelity) vk.Verdict {
 		if c.BaseURL {
 			url = "/p/:id/x"
 		}
+		if c.Idx != "" {
+			url = strings.Replace(url, "/p/:id/x", "/p/:id/:idx/x", 1)
+			r.SetPathParam("idx", c.Idx)
+		}
 		if c.Ext {
 			url += ":ext"
 		}
@@ -294,6 +299,9 @@ func checkFidelity(c Fidelity) vk.Verdict {
 		id = c.RPath
 	}
 	w.Path = "/p/" + id + "/x"
+	if c.Idx != "" {
+		w.Path = "/p/" + id + "/" + c.Idx + "/x"
+	}
 	if c.Ext {
 		if c.RExtSet {
 			w.Path += c.RExt
@@ -496,6 +504,9 @@ func genFidelity(t *rapid.T) Fidelity {
 		if c.RExtSet = rapid.Bool().Draw(t, "rextset"); c.RExtSet {
 			c.RExt = rapid.SampledFrom(exts).Draw(t, "rext")
 		}
+	}
+	if rapid.IntRange(0, 2).Draw(t, "idx") == 0 {
+		c.Idx = pval.Draw(t, "idxv")
 	}
 	if rapid.Bool().Draw(t, "rpp") {
 		c.RPath = pval.Draw(t, "rpath")
